@@ -118,6 +118,7 @@ QJsonObject generate()
     c["msgs"] = msgs;
     c["dropType"] = pick(0, 4);
     c["typesA"] = pick(0, 31);
+    c["sharedScoped"] = chance(50); // unscoped sub-pipelines leave the first number on the message when the shared counter sees it again
     c["typesB"] = pick(0, 31);
     c["re"] = pick(0, int(reMenu().size()) - 1);
     return c;
@@ -244,13 +245,15 @@ std::string run(const QJsonObject &c)
     bool sharedInvokedFromBoth = false;
     {
         const int ta = c["typesA"].toInt(), tb = c["typesB"].toInt();
+        const bool sharedScoped = !c.contains("sharedScoped") || c["sharedScoped"].toBool();
+        cls("shared_handlers_in_unscoped_pipelines", !sharedScoped);
         auto dup = DuplicateFilterPtr::create();
         auto seq = SeqNumberAttrPtr::create();
         struct Obs { char side; size_t idx; int seq; bool afterDup; };
         std::vector<Obs> got, exp;
         size_t cur = 0;
         auto mkSide = [&](char side, int mask) {
-            auto sp = PipelinePtr::create(true);
+            auto sp = PipelinePtr::create(sharedScoped);
             *sp << FunctionFilterPtr::create([mask](const LogMessage &m) { return (mask >> typeIndex(m.type())) & 1; });
             *sp << seq;
             *sp << FunctionHandlerPtr::create([&, side](LogMessage &m) { got.push_back({ side, cur, m.attribute("seq_number").toInt(), false }); return true; });
